@@ -16,6 +16,14 @@
        when the handler compared the marker ([r_seen]), the index of the log entry this request
        produced if its proposal was ever committed ([r_idx]), and whether the client received
        HTTP 200 ([r_ack]).
+
+   Since /repo 92a4e2e (repair of D14) the machine itself skips a client entry whose non-zero
+   client message id equals the session's marker ([ApplySkip], statemachine.go case
+   robust.IRCFromClient).  The log MAY therefore hold several copies of a post (a retry answered
+   by a node whose state lags its log, or racing its still-running first copy, is proposed
+   again); what is promised is that exactly one of them is PROCESSED, on every node.  The former
+   hypotheses HandlerCaughtUp, HandlerDedup, SeenLeLen and EarlierRequestsSettled are gone.
+
    The hypotheses are the named [Prop]s below.  EndToEndProofs.v proves the theorems inside a
    Section whose Variables/Hypotheses are exactly these; Properties/C05.v states them closed. *)
 From Coq Require Import List NArith Arith Bool.
@@ -61,8 +69,17 @@ Section Model.
   (* the state against which the handler of request n of session s compared the marker *)
   Definition seen_state (s : Sess M) (n : nat) : St M := state_of (firstn (r_seen M s n) (L M)).
 
+  (* the state a node is in when it applies the entry at index i *)
+  Definition state_before (i : nat) : St M := state_of (firstn i (L M)).
+
   Definition copy_at (s : Sess M) (c : N) (i : nat) : Prop :=
     exists e, nth_error (L M) i = Some e /\ entry_key M e = Some (s, c).
+  (* a copy that is processed: the marker differs when it is applied *)
+  Definition effective_at (s : Sess M) (c : N) (i : nat) : Prop :=
+    exists e, nth_error (L M) i = Some e /\ entry_key M e = Some (s, c) /\ lastpost M (state_before i) s <> c.
+  (* an entry that every node skips: no state change, no output *)
+  Definition skipped_at (i : nat) : Prop :=
+    exists e, nth_error (L M) i = Some e /\ step M (state_before i) e = (state_before i, []).
 
   (* ---- raft contract + C02 ------------------------------------------------------------ *)
   (* a node's state and stored output are those of plain replay of the prefix it has applied,
@@ -70,8 +87,6 @@ Section Model.
   Definition NodeStateIsReplay : Prop := forall i,
     node_state M i = state_of (firstn (applied M i) (L M)) /\
     node_outs M i = outs_of (firstn (applied M i) (L M)).
-  (* the answering node has applied a prefix of what is committed *)
-  Definition SeenLeLen : Prop := forall s n, n < nreq M s -> r_seen M s n <= r_len M s n.
   (* raft only appends: a proposal lands behind everything committed when it was made *)
   Definition ProposalAppends : Prop := forall s n i, n < nreq M s -> r_idx M s n = Some i -> r_len M s n <= i.
   (* the committed entry is the proposed one: it carries the request's session and client message id *)
@@ -80,19 +95,19 @@ Section Model.
   Definition LogFromRequests : Prop := forall s c i, copy_at s c i ->
     exists n, n < nreq M s /\ r_cmid M s n = c /\ r_idx M s n = Some i.
   (* api.go applyMessageWait: HTTP 200 only after Apply's future succeeded — the entry is
-     committed and applied — or on the dedup path of postmessage.go *)
+     committed and applied — or on the dedup path of postmessage.go (the marker of the state the
+     handler looked at, a replay of some prefix of L, equals the id) *)
   Definition AckImpliesCommitted : Prop := forall s n, n < nreq M s -> r_ack M s n = true ->
     (exists i, r_idx M s n = Some i) \/ lastpost M (seen_state s n) s = r_cmid M s n.
-
-  (* ---- handler (postmessage.go, C10_handler_propose) ----------------------------------- *)
-  Definition HandlerDedup : Prop := forall s n i, n < nreq M s -> r_idx M s n = Some i ->
-    lastpost M (seen_state s n) s <> r_cmid M s n.
 
   (* ---- marker rule (C10_marker / C10_marker_inv), for sessions that stay alive ---------- *)
   Definition MarkerInit : Prop := forall s, lastpost M (init M) s = 0%N.
   Definition MarkerSet : Prop := forall st e s c, entry_key M e = Some (s, c) -> lastpost M (fst (step M st e)) s = c.
   Definition MarkerOnly : Prop := forall st e s, lastpost M (fst (step M st e)) s <> lastpost M st s ->
     entry_key M e = Some (s, lastpost M (fst (step M st e)) s).
+  (* statemachine.go since 92a4e2e: a client entry whose non-zero id equals the marker is skipped *)
+  Definition ApplySkip : Prop := forall st e s c, entry_key M e = Some (s, c) -> c <> 0%N ->
+    lastpost M st s = c -> step M st e = (st, []).
 
   (* ---- client protocol ------------------------------------------------------------------ *)
   Definition CmidNonzero : Prop := forall s n, n < nreq M s -> r_cmid M s n <> 0%N.
@@ -100,76 +115,93 @@ Section Model.
   Definition ClientNoReturn : Prop := forall s a b c, a < b -> b < c -> c < nreq M s ->
     r_cmid M s a = r_cmid M s c -> r_cmid M s b = r_cmid M s a.
 
-  (* ---- timing hypotheses (NOT enforced by the code) ------------------------------------ *)
-  (* when a client sends a request, its earlier requests are settled: what they proposed is
-     committed already or never will be (the client gives up on a request only after the
-     server has; true for acknowledged requests by AckImpliesCommitted) *)
-  Definition EarlierRequestsSettled : Prop := forall s m n i, m < n -> n < nreq M s ->
-    r_idx M s m = Some i -> i < r_len M s n.
-  (* D14: the node answering a RETRY has applied everything committed before the retry arrived *)
-  Definition HandlerCaughtUp : Prop := forall s m n, m < n -> n < nreq M s ->
-    r_cmid M s m = r_cmid M s n -> r_seen M s n = r_len M s n.
+  (* ---- timing hypothesis (NOT enforced by the code) ------------------------------------ *)
+  (* when a client sends a request for a NEW message, the requests it sent for EARLIER messages
+     are settled: what they proposed is committed already or never will be.  (The client moves
+     on only after an acknowledgement; a stale attempt of the previous message that is still
+     running inside a node and commits after the next message would be processed again: the
+     apply rule compares with the LAST id only.)  Retries of the SAME message need no such
+     hypothesis any more. *)
+  Definition EarlierMessagesSettled : Prop := forall s m n i, m < n -> n < nreq M s ->
+    r_cmid M s m <> r_cmid M s n -> r_idx M s m = Some i -> i < r_len M s n.
 
-  (* everything except HandlerCaughtUp *)
-  Definition ContractWithoutCaughtUp : Prop :=
-    NodeStateIsReplay /\ SeenLeLen /\ ProposalAppends /\ ProposalEntry /\ LogFromRequests /\
-    AckImpliesCommitted /\ HandlerDedup /\ MarkerInit /\ MarkerSet /\ MarkerOnly /\
-    CmidNonzero /\ ClientNoReturn /\ EarlierRequestsSettled.
+  Definition ContractWithoutApplySkip : Prop :=
+    NodeStateIsReplay /\ ProposalAppends /\ ProposalEntry /\ LogFromRequests /\
+    AckImpliesCommitted /\ MarkerInit /\ MarkerSet /\ MarkerOnly /\
+    CmidNonzero /\ ClientNoReturn /\ EarlierMessagesSettled.
+  Definition Contract : Prop := ContractWithoutApplySkip /\ ApplySkip.
 
   (* ---- conclusions ------------------------------------------------------------------------ *)
   Definition SameStream : Prop := forall i j s,
     prefix_of (served i s) (served j s) \/ prefix_of (served j s) (served i s).
   Definition AckDurable : Prop := forall s n, n < nreq M s -> r_ack M s n = true ->
     exists i, copy_at s (r_cmid M s n) i.
-  Definition ExactlyOnceInLog : Prop := forall s n, n < nreq M s -> r_ack M s n = true ->
-    exists i, copy_at s (r_cmid M s n) i /\ forall j, copy_at s (r_cmid M s n) j -> j = i.
+  (* exactly one copy is processed; every other copy lies behind it and is skipped by every node *)
+  Definition ProcessedOnce : Prop := forall s n, n < nreq M s -> r_ack M s n = true ->
+    exists i, effective_at s (r_cmid M s n) i /\
+      forall j, copy_at s (r_cmid M s n) j -> j <> i -> i < j /\ skipped_at j.
+  (* all copies of an earlier message precede all copies of a later one *)
   Definition SenderOrder : Prop := forall s n n' i i', n < n' -> n' < nreq M s ->
     r_cmid M s n <> r_cmid M s n' ->
     copy_at s (r_cmid M s n) i -> copy_at s (r_cmid M s n') i' -> i < i'.
-  (* the stream of every node that has reached entry i is: what the log before i produces, then
-     the output of the single application of the post, then what the later entries produce —
-     and none of the other entries is a copy of the post *)
+  (* the stream of every node that has reached the processed copy i is: what the log before i
+     produces (no copy of the post there), then the output of the single processing of the post,
+     then what the later entries produce (every copy of the post among them is skipped) *)
   Definition DeliveredOnce : Prop := forall s n, n < nreq M s -> r_ack M s n = true ->
     exists i e, nth_error (L M) i = Some e /\ entry_key M e = Some (s, r_cmid M s n) /\
+      (forall k, k < i -> ~ copy_at s (r_cmid M s n) k) /\
+      (forall k, i < k -> copy_at s (r_cmid M s n) k -> skipped_at k) /\
       forall j r, i < applied M j ->
-        let rest := skipn (S i) (firstn (applied M j) (L M)) in
         served j r = filter (visible M r) (outs_of (firstn i (L M)))
-                  ++ filter (visible M r) (snd (step M (state_of (firstn i (L M))) e))
-                  ++ filter (visible M r) (snd (run (state_of (firstn (S i) (L M))) rest))
-        /\ (forall e', In e' (firstn i (L M)) -> entry_key M e' <> Some (s, r_cmid M s n))
-        /\ (forall e', In e' rest -> entry_key M e' <> Some (s, r_cmid M s n)).
+                  ++ filter (visible M r) (snd (step M (state_before i) e))
+                  ++ filter (visible M r) (snd (run (state_before (S i)) (skipn (S i) (firstn (applied M j) (L M))))).
   Definition TwoCopies : Prop := exists s c i j, i <> j /\ copy_at s c i /\ copy_at s c j /\
     exists n, n < nreq M s /\ r_cmid M s n = c /\ r_ack M s n = true.
 End Model.
 
 (* ---- a tiny concrete machine (one session; an entry is a client message id; the state is the
-   list of applied entries, newest first; every entry is echoed to the session) ------------- *)
-Definition tiny (log : list N) (napplied : bool -> nat) (nrq : nat)
+   list of processed entries, newest first; every processed entry is echoed to the session).
+   [skip] = with the apply rule of 92a4e2e. ------------------------------------------------ *)
+Definition tiny_marker (st : list N) : N := match st with [] => 0%N | c :: _ => c end.
+Definition tiny_step (skip : bool) (st : list N) (e : N) : list N * list N :=
+  if skip && negb (N.eqb e 0) && N.eqb (tiny_marker st) e then (st, []) else (e :: st, [e]).
+Fixpoint tiny_run (skip : bool) (st : list N) (l : list N) : list N * list N :=
+  match l with
+  | [] => (st, [])
+  | e :: l' => let so := tiny_step skip st e in
+               let r := tiny_run skip (fst so) l' in (fst r, snd so ++ snd r)
+  end.
+
+Definition tiny (skip : bool) (log : list N) (napplied : bool -> nat) (nrq : nat)
                 (cm : nat -> N) (ln sn : nat -> nat) (ix : nat -> option nat) (ak : nat -> bool) : Sys :=
   mkSys (list N) N N unit bool
         []
-        (fun st e => (e :: st, [e]))
+        (tiny_step skip)
         (fun _ _ => true)
         (fun e => Some (tt, e))
-        (fun st _ => match st with [] => 0%N | c :: _ => c end)
+        (fun st _ => tiny_marker st)
         log
         napplied
-        (fun b => rev (firstn (napplied b) log))
-        (fun b => firstn (napplied b) log)
+        (fun b => fst (tiny_run skip [] (firstn (napplied b) log)))
+        (fun b => snd (tiny_run skip [] (firstn (napplied b) log)))
         (fun _ => nrq) (fun _ => cm) (fun _ => ln) (fun _ => sn) (fun _ => ix) (fun _ => ak).
 
 (* two messages, posted and acknowledged in order; node [false] has applied one entry, node [true] both *)
 Definition tiny_ok : Sys :=
-  tiny [5%N; 6%N] (fun b => if b then 2 else 1) 2
+  tiny true [5%N; 6%N] (fun b => if b then 2 else 1) 2
        (fun n => match n with 0 => 5%N | _ => 6%N end)
        (fun n => n) (fun n => n)
        (fun n => Some n) (fun _ => true).
 
 (* D14: request 0 (id 5) is committed at index 0 but its answer is lost; the retry (request 1, same id)
    arrives when the committed log has length 1 ([r_len] = 1) at a leader that has applied nothing yet
-   ([r_seen] = 0 < 1): the marker still differs, the message is proposed again and acknowledged. *)
-Definition tiny_lagging : Sys :=
-  tiny [5%N; 5%N] (fun _ => 2) 2
+   ([r_seen] = 0 < 1): the marker still differs, the message is proposed again and acknowledged.
+   The log holds the post twice; with the apply rule the second copy is skipped. *)
+Definition lagging (skip : bool) : Sys :=
+  tiny skip [5%N; 5%N] (fun b => if b then 2 else 1) 2
        (fun _ => 5%N)
        (fun n => n) (fun _ => 0)
        (fun n => Some n) (fun n => match n with 0 => false | _ => true end).
+Definition tiny_lagging : Sys := lagging true.
+(* the same history on the machine WITHOUT the apply rule (the code before 92a4e2e) *)
+Definition tiny_lagging_noskip : Sys := lagging false.
